@@ -88,17 +88,31 @@ Proof.
   rewrite <- app_assoc. apply (Hc (x :: q) r); [discriminate|exact Hr|]. simpl. now rewrite E.
 Qed.
 
+(* a directory made by mkdir(2) with a mode masked by 01777 is not set-group-ID by itself *)
+Lemma no_sgid_masked y u : N.land (N.ldiff (N.land y 1023) u) sgid = 0.
+Proof.
+  apply N.bits_inj. intro i. rewrite N.land_spec, N.ldiff_spec, N.land_spec, N.bits_0.
+  destruct (N.eq_dec i 10) as [->|Hi].
+  - change (N.testbit 1023 10) with false. now rewrite andb_false_r.
+  - unfold sgid. change 1024 with (2 ^ 10). rewrite (N.pow2_bits_false 10 i) by (intro E; now subst).
+    apply andb_false_r.
+Qed.
+
+Lemma create_dir_no_sgid umask m : N.land (create_mode dir_create_bits umask m) sgid = 0.
+Proof. apply no_sgid_masked. Qed.
+
 Section RoundTrip.
   Variables (pre : path) (umask : N) (preserve repro : bool) (isl isf : path -> bool).
 
   Definition links_sound (f : fs) : Prop :=
     (forall p tg, fs_lookup f p = Some (NLink tg) -> isl p = true) /\
-    (forall p c m, fs_lookup f p = Some (NFile c m) -> isf p = true).
+    (forall p c m, fs_lookup f p = Some (NFile c m) -> isf p = true) /\
+    (forall p m, fs_lookup f p = Some (NDir m) -> N.land m sgid = 0).
 
   Lemma check_dirs_clear f : links_sound f -> forall rest acc,
     prefixes_clear isl isf acc rest = true -> check_dirs f acc rest = true.
   Proof.
-    intros [Hs Hf]. induction rest as [|x rest IH]; intros acc Hc; simpl in *; [reflexivity|].
+    intros (Hs & Hf & _). induction rest as [|x rest IH]; intros acc Hc; simpl in *; [reflexivity|].
     destruct rest as [|y rest']; [reflexivity|].
     apply andb_true_iff in Hc as [H1 H3]. apply andb_true_iff in H1 as [H1 H2].
     rewrite (IH _ H3), andb_true_r.
@@ -127,14 +141,16 @@ Section RoundTrip.
 
   Lemma mkdir_all_fresh m f rel m' :
     rel <> [] -> fs_lookup f rel = None -> fs_lookup f (parent rel) = Some (NDir m') ->
+    N.land m' sgid = 0 ->
     mkdir_all umask m f (rev rel) = Ok (fs_set f rel (NDir (create_mode dir_create_bits umask m))).
   Proof.
-    intros Hne Hn Hp. unfold parent in Hp.
+    intros Hne Hn Hp Hsg. unfold parent in Hp.
     destruct (exists_last Hne) as (r0 & x & E). subst rel.
     rewrite removelast_last in Hp.
     rewrite rev_app_distr. simpl.
     rewrite rev_involutive, Hn.
     rewrite (mkdir_all_existing m f (rev r0) m') by (now rewrite rev_involutive).
+    unfold inherited_sgid. rewrite ?rev_involutive, Hp, Hsg, N.lor_0_r.
     reflexivity.
   Qed.
 
@@ -275,12 +291,14 @@ Section RoundTrip.
           destruct preserve; repeat rewrite lookup_set_other by assumption; apply Hfresh.
       + intros q Hq. assert (rel <> q). { intro E. apply (Hq []). now rewrite app_nil_r. }
         destruct preserve; repeat rewrite lookup_set_other by assumption; reflexivity.
-      + simpl in Hbe. destruct Hls as [Hl1 Hl2]. split.
+      + simpl in Hbe. destruct Hls as (Hl1 & Hl2 & Hl3). split; [|split].
         * intros p tg. destruct preserve; repeat rewrite lookup_set;
             destruct (path_eqb rel p); try discriminate; apply Hl1.
         * intros p c' m'. destruct preserve; repeat rewrite lookup_set;
             destruct (path_eqb rel p) eqn:E; try apply Hl2;
             apply path_eqb_spec in E; subst p; intros _; exact Hbe.
+        * intros p m'. destruct preserve; repeat rewrite lookup_set;
+            destruct (path_eqb rel p); try discriminate; apply Hl3.
     - (* symlink *)
       simpl in Hbe.
       apply andb_true_iff in Hbe as [Hbe Hq]. apply andb_true_iff in Hbe as [Hbe _].
@@ -300,11 +318,12 @@ Section RoundTrip.
           unfold expected_mid. simpl. apply Hfresh.
       + intros q Hq'. rewrite lookup_set_other; [reflexivity|].
         intro E. apply (Hq' []). now rewrite app_nil_r.
-      + destruct Hls as [Hl1 Hl2]. split.
+      + destruct Hls as (Hl1 & Hl2 & Hl3). split; [|split].
         * intros p tg'. rewrite lookup_set. destruct (path_eqb rel p) eqn:E.
           -- apply path_eqb_spec in E. subst p. intros _. exact Hisl.
           -- apply Hl1.
         * intros p c' m'. rewrite lookup_set. destruct (path_eqb rel p); [discriminate|apply Hl2].
+        * intros p m'. rewrite lookup_set. destruct (path_eqb rel p); [discriminate|apply Hl3].
     - (* directory *)
       simpl in Hwf, Hmo, Hbe.
       apply andb_true_iff in Hwf as [Hnd Hwf]. apply andb_true_iff in Hmo as [Hm Hmo].
@@ -314,17 +333,20 @@ Section RoundTrip.
       assert (Hstep : extract_entry pre umask preserve f (mkEntry (pre ++ rel) EDir m (hdr_time repro mt)) = Ok f2).
       { unfold extract_entry. simpl.
         rewrite strip_prefix_app, (check_dirs_prefix_dirs f rel Hpre). simpl.
-        rewrite (mkdir_all_fresh (N.lor m owner_rwx) f rel mp Hne Hrel Hpar). reflexivity. }
+        rewrite (mkdir_all_fresh (N.lor m owner_rwx) f rel mp Hne Hrel Hpar); [reflexivity|].
+        destruct Hls as (_ & _ & Hl3). exact (Hl3 _ _ Hpar). }
       assert (H2rel : fs_lookup f2 rel = Some (NDir (mid_dir_mode umask m))).
       { unfold f2. rewrite lookup_set_same. reflexivity. }
       assert (H2other : forall q, rel <> q -> fs_lookup f2 q = fs_lookup f q).
       { intros q Hq. unfold f2. rewrite lookup_set_other by exact Hq. reflexivity. }
       assert (H2ls : links_sound f2).
-      { destruct Hls as [Hl1 Hl2]. split.
+      { destruct Hls as (Hl1 & Hl2 & Hl3). split; [|split].
         - intros p tg. unfold f2. rewrite lookup_set;
             destruct (path_eqb rel p); try discriminate; apply Hl1.
         - intros p c' m'. unfold f2. rewrite lookup_set;
-            destruct (path_eqb rel p); try discriminate; apply Hl2. }
+            destruct (path_eqb rel p); try discriminate; apply Hl2.
+        - intros p m'. unfold f2. rewrite lookup_set. destruct (path_eqb rel p); [|apply Hl3].
+          intro E. injection E as <-. apply create_dir_no_sgid. }
       destruct (children_ok rel ch IHch f2 (mid_dir_mode umask m)) as (g' & E' & L' & F' & S'); auto.
       + intros q r Hr E. rewrite H2other; [eapply Hpre; eauto|].
         subst rel. intro E. symmetry in E. revert E. now apply app_neq_longer.
@@ -384,7 +406,8 @@ Theorem extract_list_mid pre umask preserve repro T :
 Proof.
   intros Hd Hwf Hmo Hbe. destruct T as [| |m mt ch]; try discriminate.
   apply (extract_list_entries pre umask preserve repro (links_of (Dir m mt ch)) (files_of (Dir m mt ch)) m mt ch Hwf Hmo Hbe).
-  split; [intros p tg E|intros p c' m' E]; unfold fs_init in E; destruct p; simpl in E; discriminate.
+  split; [intros p tg E|split; [intros p c' m' E|intros p m' E]]; unfold fs_init in E; destruct p; simpl in E;
+    try discriminate. injection E as <-. apply create_dir_no_sgid.
 Qed.
 
 (* ---------- reproducible tars ---------- *)
